@@ -18,7 +18,7 @@ PROPS = {
     "C11": dict(verus=["U-TS"], kani=[], bounded=["U-PARSE-B"], findings=[("F-C11-1", "verus", "U-TS", "F-C11-1")]),
     "C12": dict(verus=["U-TS"], kani=[], bounded=["U-PARSE-B"], findings=[]),
     "C13": dict(verus=["U-TS"], kani=[], bounded=[], findings=[]),
-    "C14": dict(verus=["U-SM", "U-TS"], kani=[], bounded=["U-PARSE-B"], findings=[]),
+    "C14": dict(verus=["U-SM", "U-TS", "U-SER"], kani=[], bounded=["U-PARSE-B"], findings=[]),
     "C15": dict(verus=["U-SM", "U-TS", "U-SER"], kani=[], bounded=[], findings=[]),
     "C16": dict(verus=["U-SM"], kani=[], bounded=[], findings=[]),
 }
